@@ -444,6 +444,25 @@ def step (_ : Unit) (w : List String) : Unit × String :=
       let sp := " || ".intercalate (["ok", "refused"].flatMap fun f => seconds.map fun x => s!"first={f} second={x} ; *")
       ((), s!"R first={first} second={second} | C - | I - | S {sp}")
     | _, _, _, _ => ((), "bad-op")
+  | ["cx", "hold", s, t, v] =>
+    -- C++ part: the scalar held in `mpt::metatype::value<T>`, `convert(tgt, 0)` and `convert(tgt, &dst)`; the holder copies
+    -- an identical type itself and hands everything else to `mpt_value_convert`
+    match Ty.ofName s, Ty.ofName t with
+    | some src, some tgt =>
+      if src ∉ [Ty.i, .u, .x, .t, .d, .f] then ((), "bad-op") else
+      match parseSrc src v with
+      | some x =>
+        let rd := valueConvert src tgt x true
+        let rq := valueConvert src tgt x false
+        let out := match rd with
+          | .ok (some o, _) => outText tgt o
+          | _ => "-"
+        let sp := match expected src tgt x with
+          | some h => s!"dst=ok out={h} nodst=ok ; * || dst=refused out=- nodst=refused ; *"
+          | none => "dst=refused out=- nodst=refused ; *"
+        ((), s!"R dst={resName rd} out={out} nodst={resName rq} | C - | I - | S {sp}")
+      | none => ((), "bad-op")
+    | _, _ => ((), "bad-op")
   | ["c", "skip", s, v] =>
     -- `mpt_iterator_consume(it, 0, 0)`: no conversion, the iterator advances and the type of the skipped value is returned
     match Ty.ofName s with
